@@ -75,6 +75,10 @@ func (l *Linter) Lint(node ast.Node, ctx *context.Context) types.Type {
 	l.lint(node, ctx)
 
 	// After whole VCLs have been linted in main VCL, check all definitions are exactly used.
+	// An ignore range left open at the end of the file (falco-ignore-start without falco-ignore-end) ends here:
+	// the declarations it covers have been marked as used while they were linted,
+	// the unused declarations written BEFORE it must still be reported.
+	l.ignore = &ignore{}
 	l.lintUnusedTables(ctx)
 	l.lintUnusedAcls(ctx)
 	l.lintUnusedBackends(ctx)
